@@ -534,3 +534,118 @@ def contraction(rng, n=None, q=None, via_range=None):
     return spec, {'A': A, 'b': b, 'q': max(sum(abs(x) for x in row) for row in A),
                   'fixed': fixed, 'cells': [addr(S1, f'A{i + 1}') for i in range(n)],
                   'via_range': bool(via_range and n >= 2), 'n': n}
+
+
+# --------------------------------------------------------------------------- large workbooks
+
+def big(rng):
+    """an acyclic workbook of the sizes the small generator never reaches, same (spec, meta) form as ``dag``:
+    a chain of 90-140 dependent cells, an 800-1500 cell block in the columns beyond Z (with formula cells inside)
+    under whole-block aggregates, a 300-600 row sorted table under MATCH / VLOOKUP / INDEX, a dozen sheets added up
+    by one formula, texts of 300 and 32 000 characters, integers beyond 2**31 / 2**53 / 15 digits, 30 defined
+    names, 6 array formulas.  Everything is exact (small integers), so any order of addition gives the same value."""
+    cells, fm, order = {}, {}, []          # Sheet1 cells, ground truth, raster order of the addresses made
+    names = {}
+    extra_sheets = []
+
+    def put(c, v, form=None, deps=None, sheet=S1, store=None):
+        (cells if store is None else store)[c] = v
+        a = addr(sheet, c)
+        order.append(a)
+        if form:
+            fm[a] = {'form': form, 'deps': sorted(set(deps))}
+
+    # 1. chain in column H
+    n_chain = rng.choice([90, 120, 140])      # (200 is where a fresh model runs out of stack)
+    put('H1', rng.choice([1, 2, 5]))
+    for i in range(2, n_chain + 1):
+        op = rng.choice(['+1', '+2', '*1', '-1'])
+        put(f'H{i}', f'=H{i - 1}{op}', 'arith', [addr(S1, f'H{i - 1}')])
+    # 2. block beyond column Z, rows 101..
+    w, h = rng.randint(20, 30), rng.randint(30, 50)
+    c0, r0 = 27, 101
+    block = []
+    inner = set(rng.sample([(r, c) for r in range(1, h) for c in range(1, w)], 5))
+    for r in range(h):
+        for c in range(w):
+            co = coord(c0 + c, r0 + r)
+            block.append(addr(S1, co))
+            if (r, c) in inner:
+                src = coord(c0 + c - 1, r0 + r - 1)          # up-left neighbour: earlier in raster order
+                put(co, f'={src}*2', 'arith', [addr(S1, src)])
+            else:
+                x = rng.random()
+                put(co, None if x < 0.03 else 'txt' if x < 0.05 else True if x < 0.06 else rng.randint(-50, 50))
+    for c in [k for k, v in list(cells.items()) if v is None]:
+        del cells[c]
+    bref = f'{coord(c0, r0)}:{coord(c0 + w - 1, r0 + h - 1)}'
+    for k, f in enumerate(('SUM', 'COUNT', 'MAX', 'MIN', 'AVERAGE')):
+        put(f'C{400 + k}', f'={f}({bref})', 'agg', block)
+    colref = f'{coord(c0 + 1, r0)}:{coord(c0 + 1, r0 + h - 1)}'
+    put('C405', f'=SUMIF({colref},">0")', 'sumif', [addr(S1, coord(c0 + 1, r0 + r)) for r in range(h)])
+    put('C406', f'=SUM({coord(c0, r0)}:{coord(c0 + w - 1, r0)})+C400', 'agg',
+        [addr(S1, coord(c0 + c, r0)) for c in range(w)] + [addr(S1, 'C400')])
+    # 3. sorted table in BA:BB (columns 53, 54), rows 1..n
+    n_tab = rng.choice([300, 450, 600])
+    keys, vals = [], []
+    for i in range(1, n_tab + 1):
+        put(f'BA{i}', 3 * i)
+        put(f'BB{i}', 1000 + i)
+        keys.append(addr(S1, f'BA{i}'))
+        vals.append(addr(S1, f'BB{i}'))
+    put('A410', 3 * rng.randint(1, n_tab))
+    put('A411', 3 * rng.randint(1, n_tab) + 1)
+    put('D410', f'=MATCH(A410,BA1:BA{n_tab},0)', 'lookup', keys + [addr(S1, 'A410')])
+    put('D411', f'=VLOOKUP(A410,BA1:BB{n_tab},2,FALSE)', 'lookup', keys + vals + [addr(S1, 'A410')])
+    put('D412', f'=MATCH(A411,BA1:BA{n_tab},1)', 'lookup', keys + [addr(S1, 'A411')])
+    put('D413', f'=INDEX(BB1:BB{n_tab},{n_tab - 7})+D410', 'index', vals + [addr(S1, 'D410')])
+    put('D414', f'=VLOOKUP(A411,BA1:BB{n_tab},2,TRUE)+D412', 'lookup', keys + vals + [addr(S1, 'A411'), addr(S1, 'D412')])
+    # 4. a dozen sheets added up
+    n_sheets = rng.randint(10, 14)
+    terms, deps = [], []
+    for k in range(1, n_sheets + 1):
+        sname = f'S{k:02d}'
+        store = {}
+        put('A1', k * 10, sheet=sname, store=store)
+        put('B2', f'=A1+{k}', 'arith', [addr(sname, 'A1')], sheet=sname, store=store)
+        extra_sheets.append([sname, store])
+        terms.append(f'{sname}!B2')
+        deps.append(addr(sname, 'B2'))
+    put('E420', '=' + '+'.join(terms), 'arith', deps)
+    # 5. long texts
+    put('F430', 'x' * 300)
+    put('F431', 'yz' * 16000)      # (a cell holds at most 32 767 characters)
+    put('F432', '=F430&F431', 'concat', [addr(S1, 'F430'), addr(S1, 'F431')])
+    put('F433', '=LEN(F432)', 'arith', [addr(S1, 'F432')])
+    put('F434', '=RIGHT(F431,3)&LEFT(F430,2)', 'concat', [addr(S1, 'F430'), addr(S1, 'F431')])
+    # 6. big integers
+    put('G440', 2 ** 31 + 1)
+    put('G441', 2 ** 53 + 1)
+    put('G442', 123456789012345678)
+    put('G443', '=G440+1', 'arith', [addr(S1, 'G440')])
+    put('G444', '=G442-G441', 'arith', [addr(S1, 'G441'), addr(S1, 'G442')])
+    put('G445', '=G440*2=G440+G440', 'cmp', [addr(S1, 'G440')])
+    put('G446', '=MAX(G440:G442)', 'agg', [addr(S1, f'G44{k}') for k in (0, 1, 2)])
+    # 7. defined names over cells of the chain
+    picks = rng.sample(range(1, n_chain + 1), 30)
+    for k, i in enumerate(picks):
+        names[f'nm_{k}'] = f'{S1}!$H${i}'
+    used = rng.sample(range(30), 4)
+    put('A450', '=' + '+'.join(f'nm_{k}' for k in used), 'name', [addr(S1, f'H{picks[k]}') for k in used])
+    spec = {'sheets': [[S1, cells]] + extra_sheets, 'names': names, 'arrays': [], 'calc': None}
+    meta = {'inputs': [], 'formulas': fm, 'order': order, 'big': True}
+    # 8. array formulas over rows of the block
+    for k in range(6):
+        r = r0 + rng.randrange(h)
+        src = f'{coord(c0, r)}:{coord(c0 + 2, r)}'
+        ref = f'A{460 + k}:C{460 + k}'
+        spec['arrays'].append([S1, ref, f'={src}*{k + 2}'])
+        d = [addr(S1, c) for row in range_cells(src) for c in row]
+        for row in range_cells(ref):
+            for c in row:
+                fm[addr(S1, c)] = {'form': 'cse', 'deps': d}
+                order.append(addr(S1, c))
+    by_sheet = dict(spec['sheets'])
+    meta['inputs'] = [a for a in order if a not in fm and by_sheet[a.rsplit('!', 1)[0]].get(a.rsplit('!', 1)[1]) is not None]
+    meta['order'] = [a for a in order if a in fm or a in set(meta['inputs'])]
+    return spec, meta
